@@ -42,7 +42,8 @@ INLINE_KEEP = {
                          "console_unknown"],
     "librfn/fibre.c": ["handle_atomic_runq", "update_current_state", "handle_timerq", "get_next_task", "get_next_wakeup",
                        "make_runnable", "add_taint", "duetime_cmp",
-                       "list_empty", "messageq_empty", "list_peek"],          # header inlines the fibre rules look for
+                       "list_empty", "messageq_empty", "list_peek",           # header inlines the fibre rules look for
+                       "messageq_claim", "messageq_send", "messageq_receive", "messageq_release"],   # (the same if they move there)
     "librfn/hex.c": ["hexchar", "nibble"],
     "librfn/mlog.c": ["get_line"],
     "librfn/wavheader.c": ["format_tostring"],
